@@ -740,16 +740,16 @@ func genSequence(rnd *rand.Rand, idx int, cfg config) []op {
 // ---- one pass: one sequence, one fault site injected at every operation ---------------------------------------------
 
 type armed struct {
-	s         site
-	panicked  bool
-	swept     bool
-	dbArmed   bool
+	s        site
+	panicked bool
+	swept    bool
+	dbArmed  bool
 	// what was injected, known after the operation returned
 	commitFailed bool // the commit of the network method failed by injection (error of the method manager or refusal by the network)
 	dbFailed     bool // a statement of the clean-up transaction failed by injection
-	trace     []string
-	pending   []string // verification methods of the versions written by the first transaction
-	sweepsRan int
+	trace        []string
+	pending      []string // verification methods of the versions written by the first transaction
+	sweepsRan    int
 }
 
 type pass struct {
